@@ -160,6 +160,13 @@ Theorem C09_explicit_overrides_default : forall (jitter : nat -> Q -> Q) row row
 Proof. exact explicit_overrides_default. Qed.
 Print Assumptions C09_explicit_overrides_default.
 
+(* selective generation: an rpc generated as an internal _method keeps the row of its service-config entry *)
+Theorem C09_internal_methods_keep_defaults : forall internal cfg service method,
+  row_of internal cfg service method = emit cfg service method /\
+  row_of internal cfg service method = row_of false cfg service method.
+Proof. exact internal_methods_keep_defaults. Qed.
+Print Assumptions C09_internal_methods_keep_defaults.
+
 (* paged methods: every page request of a listing is a call with the caller's arguments; an explicit timeout is carried
    by the first attempt of every page *)
 Theorem C09_listing_every_page : forall (jitter : nat -> Q -> Q) row retry timeout scripts i s,
